@@ -18,7 +18,7 @@ package qrAlgorithm
 
 /* -------------------------------------------------------------------------- */
 
-//import   "fmt"
+import   "fmt"
 import   "math"
 
 import . "github.com/pbenner/autodiff"
@@ -136,8 +136,12 @@ func qrAlgorithmSymmetric(inSitu *InSitu, epsilon float64) (Matrix, Matrix, erro
     Z = Z_
   }
 
-  for p, q := 0, 0; q < n; {
+  for p, q, total := 0, 0, 0; q < n; total++ {
     verifhook.Tick("qrAlgorithmSymmetric.outer")
+
+    if total > 2000*n {
+      return nil, nil, fmt.Errorf("QR algorithm failed to converge within %d iterations", total)
+    }
 
     for i := 0; i < n-1; i++ {
       t11 := T.At(i  ,i  ).GetFloat64()
